@@ -25,7 +25,8 @@ DEPENDS = ['Py.v', 'Lang.v', 'Defs.v', 'Cond.v', 'Dsl.v', 'Check.v', 'DocSem.v',
 ASSUMPTIONS = ["Layer P models CPython's operators (pysem)", "float(str) in DataPath.from_str is an oracle (CPython's own outcome per token)",
                "YAML text -> Python structure is ruamel.yaml's and is outside the model (exercised by correspondence only)"]
 
-TOKENS = ["a", "0", "1", "-1", "2.5", "1e3", "abc", "", "1_0", " 3", "+2", "inf", "nan", "0x1", "é", "1.0", "007", "b c"]
+TOKENS = ["a", "0", "1", "-1", "2.5", "1e3", "abc", "", "1_0", " 3", "+2", "inf", "nan", "0x1", "é", "1.0", "007", "b c",
+          "0.0", "-0.0", "0e0", ".0", "0.", "-0", "00"]       # zero-valued floats (falsy numbers), zeros that are ints
 
 
 def enc(outcome):
